@@ -14,6 +14,9 @@ FAIL_STMTS = [
     "undefined_target = 1;", "var q = 5; q.field = 1;", "import \"no_such_module\";", "throw \"text\";", "throw 42;", "throw [1, 2];",
     "throw nil;", "throw Error.new(\"boom\");", "throw MyErr.new(\"custom\");", "throw (1, \"t\");", "throw MyErr;", "throw Plain.new();",
     "throw \"two\\nlines\";",
+    "throw ParseErr.new(\"bad digit in '12x'\");", "throw DigitErr.new(\"x\");", "throw KindErr.new([1, 2]);", "throw SlotErr.new(\"slot 9\");",
+    "throw RunErr.new(\"ran out\");", "throw NameErr2.new(\"who\");", "throw AttrErr2.new(\"no such\");", "throw ImpErr2.new(\"cannot import\");",
+    "throw ValueError.new(\"plain value error\");", "throw StopIter.new();", "throw ParseErr;",
 ]
 HOST = ["host_fail(%d, \"host says %d\");" % (k, k) for k in range(8)]
 
@@ -26,6 +29,62 @@ class MyErr {
 }
 #[constructor(new)]
 class Plain {}
+#[derive(ValueError)]
+class ParseErr {
+    #[constructor]
+    fn new(self, m) {
+        super.new(m);
+    }
+}
+#[derive(ParseErr)]
+class DigitErr {
+    #[constructor]
+    fn new(self, m) {
+        super.new("digit: " + m);
+    }
+}
+#[derive(TypeError)]
+class KindErr {
+    #[constructor]
+    fn new(self, m) {
+        super.new(m);
+    }
+}
+#[derive(IndexError)]
+class SlotErr {
+    #[constructor]
+    fn new(self, m) {
+        super.new(m);
+    }
+}
+#[derive(RuntimeError)]
+class RunErr {
+    #[constructor]
+    fn new(self, m) {
+        super.new(m);
+    }
+}
+#[derive(NameError)]
+class NameErr2 {
+    #[constructor]
+    fn new(self, m) {
+        super.new(m);
+    }
+}
+#[derive(AttributeError)]
+class AttrErr2 {
+    #[constructor]
+    fn new(self, m) {
+        super.new(m);
+    }
+}
+#[derive(ImportError)]
+class ImpErr2 {
+    #[constructor]
+    fn new(self, m) {
+        super.new(m);
+    }
+}
 '''
 
 
